@@ -29,17 +29,19 @@ fn models(tier: Tier) -> Vec<Model> {
     let mut v = vec![];
     match tier {
         Tier::Quick => {
-            v.extend(gen::m1(0).into_iter().step_by(23));
-            v.extend(gen::m3(0).into_iter().step_by(101));
-            v.extend(gen::m4(0).into_iter().step_by(29));
-            v.extend(gen::m5(0).into_iter().step_by(29));
+            v.extend(gen::m1(0).into_iter().step_by(7));
+            v.extend(gen::m3(0).into_iter().step_by(29));
+            v.extend(gen::m4(0).into_iter().step_by(7));
+            v.extend(gen::m6(0).into_iter().step_by(13));
+            v.extend(gen::m5(0).into_iter().step_by(11));
         }
         Tier::Thorough => {
             v.extend(gen::m1(1).into_iter().step_by(19));
             v.extend(gen::m2(1).into_iter().step_by(2503));
             v.extend(gen::m3(1).into_iter().step_by(37));
             v.extend(gen::m4(1).into_iter().step_by(11));
-            v.extend(gen::m5(1).into_iter().step_by(11));
+            v.extend(gen::m5(1).into_iter().step_by(5));
+            v.extend(gen::m6(1).into_iter().step_by(3));
         }
     }
     v
@@ -69,7 +71,7 @@ impl Property for C11 {
     fn assumptions(&self) -> Vec<String> {
         vec![
             "the re-solve after an interrupted iteration is a plain satisfy judged against the model minus the solutions already blocked".into(),
-            "violations of the re-solve after an interrupted LinearSatUnsat run carry the suffix after-sat-unsat-optimise (the procedure leaves its bound in the solver; see the C10 finding)".into(),
+            "a wrong re-solve after an interrupted LinearSatUnsat run carries the suffix after-sat-unsat-optimise only if it is exactly the answer for the model plus the bound x0 <= incumbent-1 that the procedure leaves in the solver (the C10 finding); any other wrong re-solve is reported plainly".into(),
         ]
     }
     fn extra(&self, tier: Tier) -> Value {
@@ -294,12 +296,33 @@ fn run_case(model: &Model, sols: &[Vec<i32>], kind: Kind, br: &BrancherSpec, max
             };
             let remaining: Vec<Vec<i32>> = sols.iter().filter(|s| !blocked.contains(s)).cloned().collect();
             let re_kind = if kind == Kind::Iterate { Kind::Satisfy } else { kind };
-            if kind == Kind::OptSatUnsat {
-                cx.sig_suffix = "after-sat-unsat-optimise".into();
-            }
             let mut never = CountingTermination::never();
             let again = solve(&mut b, re_kind, br, &mut never, sols.len());
-            judge(model, &remaining, re_kind, &again, false, &format!("re-solve after {what}"), cx);
+            let re_what = format!("re-solve after {what}");
+            let official = cx.capture(|cx| judge(model, &remaining, re_kind, &again, false, &re_what, cx));
+            if official.is_empty() {
+                continue;
+            }
+            // LinearSatUnsat leaves `x0 <= incumbent - 1` in the solver (the C10 finding). A wrong
+            // re-solve that is exactly what this leftover bound explains is reported under the
+            // suffix of that finding; anything else is reported as it is.
+            let leftover: Option<Vec<Vec<i32>>> = if kind == Kind::OptSatUnsat {
+                match &out {
+                    Outcome::Best(a) | Outcome::Optimal(a) => Some(remaining.iter().filter(|s| s[0] < a[0]).cloned().collect()),
+                    _ => None,
+                }
+            } else {
+                None
+            };
+            let explained = leftover
+                .as_ref()
+                .is_some_and(|eff| cx.capture(|cx| judge(model, eff, re_kind, &again, false, &re_what, cx)).is_empty());
+            if explained {
+                cx.sig_suffix = "after-sat-unsat-optimise".into();
+            }
+            for (sig, msg) in official {
+                cx.violation(sig, msg);
+            }
             cx.sig_suffix.clear();
         }
     }
